@@ -153,6 +153,21 @@ def prefixes_for(modname):
     return out
 
 
+_SCRIPT_ZEROS = []
+
+
+def script_zeros():
+    """Code points of the digit zero of every script whose ten decimal digits are contiguous."""
+    if not _SCRIPT_ZEROS:
+        import unicodedata
+        for cp in range(0x80, 0x110000):
+            c = chr(cp)
+            if unicodedata.category(c) == 'Nd' and unicodedata.decimal(c, None) == 0:
+                if all(unicodedata.decimal(chr(cp + i), None) == i for i in range(10)):
+                    _SCRIPT_ZEROS.append(cp)
+    return _SCRIPT_ZEROS
+
+
 def decorations(v, modname, tier, rng, pool=None):
     """Yield (cls, string) presentation variants of v."""
     pool = pool or DECOR_POOL
@@ -187,9 +202,15 @@ def decorations(v, modname, tier, rng, pool=None):
         p, q = sorted((rng.randrange(n + 1), rng.randrange(n + 1)))
         yield ('double', v[:p] + a + v[p:q] + b + v[q:])
     if any(c.isdigit() for c in v):
-        # the whole number typed with the digits of another script
-        for base in (0x0660, 0x06F0, 0xFF10, 0x0966, 0x1D7CE):
+        # the whole number typed with the digits of another script (every script that has decimal digits)
+        for base in script_zeros():
             yield ('transliterated', ''.join(chr(base + int(c)) if c in '0123456789' else c for c in v))
+    # the characters regrouped with another separator (d050.9984.a2a0, 12-34-56 ...)
+    bare = ''.join(c for c in v if c.isalnum())
+    for g in (2, 3, 4):
+        for sep in ('.', '-', ' ', ':') if tier == 'thorough' else (rng.choice('.-: '),):
+            if len(bare) > g:
+                yield ('regroup', sep.join(bare[i:i + g] for i in range(0, len(bare), g)))
     for pre in prefixes_for(modname):
         yield ('prefix', pre + v)
         if v[:1].isdigit() and pre.strip():
